@@ -239,7 +239,19 @@ impl FromStr for ServiceAddr {
             "CS" => ServiceAddr::CONTROL,
             "DS" => ServiceAddr::DAEMON,
             "Wildcard" => ServiceAddr::WILDCARD,
-            _ => return Err(ERR),
+            // Numeric form printed by `Display` for all other values, e.g. `<SVC:0x0003>`.
+            _ => {
+                let hex = service
+                    .strip_prefix("<SVC:0x")
+                    .and_then(|rest| rest.strip_suffix('>'))
+                    .ok_or(ERR)?;
+                let value = u16::from_str_radix(hex, 16).map_err(|_| ERR)?;
+                // The multicast flag is spelled by the `_M` suffix, not inside the number.
+                if value & Self::MULTICAST_FLAG != 0 {
+                    return Err(ERR);
+                }
+                ServiceAddr(value)
+            }
         };
 
         match suffix {
@@ -674,5 +686,34 @@ pub mod ptest {
     fn arbitrary_unknown_wire_host_addr_type() -> impl Strategy<Value = WireHostAddrType> {
         let size_strategy = prop::num::u8::ANY.prop_map(|size| ((size % 4) + 1) * 4);
         (2u8..=3, size_strategy).prop_map(|(id, size)| WireHostAddrType::Unknown { id, size })
+    }
+}
+
+#[cfg(test)]
+mod tests {
+    use super::*;
+
+    #[test]
+    fn service_addr_display_parses_back_for_every_value() {
+        for value in 0..=u16::MAX {
+            let addr = ServiceAddr(value);
+            assert_eq!(addr.to_string().parse::<ServiceAddr>(), Ok(addr), "{addr}");
+        }
+    }
+
+    #[test]
+    fn service_addr_rejects_malformed_numeric_forms() {
+        for s in [
+            "<SVC:0x8003>",
+            "<SVC:0x10000>",
+            "<SVC:0x>",
+            "<SVC:0x0003",
+            "SVC:0x0003>",
+            "<SVC:0x0003>x",
+            "x<SVC:0x0003>",
+            "<SVC:0x0003>_X",
+        ] {
+            assert!(s.parse::<ServiceAddr>().is_err(), "{s}");
+        }
     }
 }
